@@ -69,7 +69,7 @@ def history(draw):
         if n_pool:
             choices += ["merge", "copy", "copy", "boundary", "load", "subdiv", "translate", "translate", "rotate", "scale", "scale_xyz",
                         "normalize", "fit", "to_origin", "flatten", "edit_inplace", "edit_rebind", "append_vertex", "attr_write",
-                        "query", "roundtrip", "translate", "merge", "add_face", "add_face"]
+                        "query", "roundtrip", "translate", "merge", "add_face", "add_face", "rotate_record", "rotate_record"]
         op = draw(st.sampled_from(choices))
         i = draw(st.integers(0, 50))
         if op == "build":
@@ -103,6 +103,8 @@ def history(draw):
             ops.append([op, i])
         elif op == "add_face":
             ops.append([op, i, draw(st.integers(0, 50)), draw(vec3)])
+        elif op == "rotate_record":
+            ops.append([op, i, draw(st.integers(0, 50)), draw(st.sampled_from(["faces", "cells_swap"]))])
         elif op == "flatten":
             ops.append([op, i, draw(st.sampled_from([None, 0, 1, 2]))])
         elif op == "edit_inplace":
@@ -542,6 +544,26 @@ def fn(case, ctx):
                 mdl0.F = mdl0.F + [(b, a, nv)]
                 mdl0.E = mdl0.E + [key(a, nv), key(b, nv)]
                 ctx.label("op=add_face")
+            elif kind == "rotate_record":
+                # user-level raw edit of one element record IN PLACE (only possible when the record is a mutable list or a numpy
+                # row, as produced by the file importers, from_arrays or list input): cyclic rotation of a face keeps the mesh valid
+                if op[3] == "faces" and mdl0.F and mdl0.cls == "SurfaceMesh":
+                    f = op[2] % len(mdl0.F)
+                    rec = m0.faces[f]
+                    if isinstance(rec, (list, np.ndarray)):
+                        rot = [int(x) for x in rec][1:] + [int(x) for x in rec][:1]
+                        rec[:] = rot
+                        # face corners follow the face's vertex order
+                        c0 = sum(len(g) for g in mdl0.F[:f])
+                        for j, vv in enumerate(rot):
+                            m0.face_corners._elem[c0 + j] = vv
+                        m0.connectivity.clear(); m0.clear_boundary_data()
+                        mdl0.F = mdl0.F[:f] + [tuple(rot)] + mdl0.F[f + 1:]
+                        ctx.label("op=rotate_record:" + type(rec).__name__)
+                    else:
+                        target = None; continue
+                else:
+                    target = None; continue
             elif kind == "attr_write":
                 v = op[2] % len(mdl0.V)
                 at = m0.vertices.get_attribute("c06") if m0.vertices.has_attribute("c06") else m0.vertices.create_attribute("c06", float)
